@@ -382,7 +382,7 @@ Qed.
 
 Lemma make_Pw z b m : PRep b -> shape b m -> Pw (fst (make z b m)) (eng_fun b m).
 Proof.
-  intros HR S. unfold make. cbv zeta.
+  intros HR S. unfold make, make_l. cbv zeta.
   match goal with |- context [remove_piece z ?x (flip (stm b)) _ _] => set (b0 := x) end.
   assert (P0 : Pw b0 (who (abs b))) by (apply (Pw_same b); try reflexivity; apply Pw_self; exact HR).
   clearbody b0.
@@ -745,7 +745,7 @@ Qed.
 
 Lemma make_stm : forall z b m, stm (fst (make z b m)) = flip (stm b).
 Proof.
-  intros z b m. unfold make. cbv zeta.
+  intros z b m. unfold make, make_l. cbv zeta.
   destruct (remove_piece z _ (flip (stm b)) _ _) as [b1 h1].
   destruct (remove_piece z b1 _ _ _) as [b2 h2].
   destruct (add_piece z b2 _ _ _) as [b3 h3].
